@@ -11,16 +11,19 @@ LEVEL = "other"
 TECHNIQUE = ("static analysis: symbolic evaluation of the proc-macro's quote! emission (token template with every interpolation hole labelled by its origin), "
              "field-coverage and sibling-agreement checks over MIR aggregates in both crates")
 LEVEL_TEXT = ("Decides, for every declaration at once (the analysis is of the generator, not of sampled expansions): (R1) `ApiEndpoint::new`/`new_for_types` are emitted by one function only, and the "
-              "function form, channel form and both trait forms call it with name, doc comment and attribute taken from the same item; the trait factory passes its real/stub kind unchanged to every item; "
-              "(R2a) every attribute argument of EndpointMetadata/ChannelMetadata reaches the same-named field of the validated metadata; (R2b) the emitted constructor call passes, per parameter *name* of "
-              "dropshot's ApiEndpoint::new/new_for_types, the matching metadata field (operation id defaulting to the function name, Method::<as_str(method)>, content type, path, versions), identically in the "
-              "real and stub arms, and appends .summary/.description/.tag*/.visible(false)/.deprecated(true)/.request_body_max_bytes(expr) exactly under the matching field's condition; (R3) each builder "
-              "method stores its argument in the same-named field and returns self; (R4) new and new_for_types build every field but `handler` from the same sources with the declared defaults; (R5) the "
-              "macro's MIME strings and methods are accepted by from_mime_type / gen_openapi's slot table; (R6) gen_openapi copies summary/description/tags/deprecated/operation_id from the same-named "
-              "endpoint fields on the visible edge only; (R7) `..`/`a..`/`..b`/`a..b` parse to All/From/Until/FromUntil with operands in source order, literal pairs are refused iff until < earliest, and each kind "
-              "emits the matching ApiEndpointVersions constructor with bounds in (earliest, until) order. Residue: the string surgery of ExtractedDoc::from_attrs (which text is summary vs description), serde's "
-              "derive mapping attribute names to EndpointMetadata fields, rustc's own type-checking of the emitted tokens, routing by method/path/versions (C01/C02/C05).")
-LEVEL_NOTE = ("Trusted base: rustc MIR construction, the extractor, rules/lib_c19.py (quote! template evaluator, ~600 lines), semantics of quote's push_*/ToTokens, Option::map/bool::then/Iterator::map "
+              "function form, channel form and both trait forms call it with name, doc comment and attribute taken from the same item; its result is what is emitted/registered; the trait factory passes its "
+              "real/stub kind unchanged to every item; (R2a) every attribute argument of EndpointMetadata/ChannelMetadata reaches the same-named field of the validated metadata; (R2b) the emitted constructor "
+              "call passes, for each parameter of dropshot's ApiEndpoint::new/new_for_types (identified by the ApiEndpoint field it becomes), the matching metadata field (operation id defaulting to the "
+              "function name, Method::<as_str(method)>, content type, path, versions), identically in the real and stub arms, and appends .summary/.description/.tag*/.visible(false)/.deprecated(true)/"
+              ".request_body_max_bytes(expr) exactly under the matching field's condition and nothing else; (R3) each builder method stores its argument in the same-named field and returns self; (R4) new and "
+              "new_for_types build every field but `handler` from the same sources with the declared defaults; (R5) the macro's MIME strings and methods are accepted by from_mime_type / gen_openapi's slot "
+              "table; (R6) gen_openapi copies summary/description/tags/deprecated/operation_id from the same-named endpoint fields, on the visible edge only, into the slot chosen by that endpoint's method; "
+              "(R7) `..`/`a..`/`..b`/`a..b` parse to All/From/Until/FromUntil with operands in source order, literal pairs are refused iff until < earliest, and each kind emits the matching "
+              "ApiEndpointVersions constructor with bounds in (earliest, until) order; (R8) summary and description are cut from one stream of the item's doc lines and no fold step drops text. "
+              "Residue: the per-line string surgery of ExtractedDoc::from_attrs / normalize_comment_string (trimming, `*` prefixes, paragraph breaks), agreement of the trait stub's extractor-type list with "
+              "the real handler's argument types, serde's derive mapping attribute names to EndpointMetadata fields, rustc's own type-checking of the emitted tokens, routing by method/path/versions "
+              "(C01/C02/C05) and the body limit's enforcement (C11).")
+LEVEL_NOTE = ("Trusted base: rustc MIR construction, the extractor, rules/lib_c19.py (quote! template evaluator, ~750 lines), semantics of quote's push_*/ToTokens, Option::map/bool::then/Iterator::map "
               "summaries; format_ident!'s template is checked only for absence of literal text.")
 EXPLANATION = ("TABLE/SIBLINGS-AGREE/WHO-CALLS rules over symbolic token templates recovered from the MIR of dropshot_endpoint (each instance = one emitted call argument, builder call, struct field, "
                "caller argument or table row) plus CHAIN/SHAPE rules over ApiEndpoint's constructors, builder methods and gen_openapi in dropshot.")
@@ -164,7 +167,7 @@ NAME_OPS = PLUMB + FMT + [r"string::ToString::to_string$", r"alloc::fmt::format$
 def r1_one_producer(ctx):
     R = ctx.rule("C19.R1", "ApiEndpoint::new / ::new_for_types are emitted only by ValidatedEndpointMetadata::to_api_endpoint_fn; the function form, the channel form and both trait forms "
                  "call it with endpoint_name = <item>.sig.ident.to_string(), doc = ExtractedDoc::from_attrs(&<item>.attrs) and metadata validated against that same name/attribute; its result is what "
-                 "gets registered; the trait factory hands its real/stub kind unchanged to every item", floor=30)
+                 "gets registered; the trait factory hands its real/stub kind unchanged to every item", floor=38)
     ep = ctx.ep
     prod = ctx.need_fn(ep, R, PRODUCER)
     chprod = ctx.need_fn(ep, R, CH_PRODUCER)
@@ -383,7 +386,7 @@ def _factory_kind(ctx, R, q0):
 # =========================================================================== R2a
 def r2a_validate(ctx):
     R = ctx.rule("C19.R2a", "every attribute argument reaches the validated metadata: each field of EndpointMetadata (except _dropshot_crate) flows into the same-named field of ValidatedEndpointMetadata "
-                 "and nothing else does; ChannelMetadata likewise, with method=GET, content type JSON and no body limit fixed by design", floor=22)
+                 "and nothing else does; ChannelMetadata likewise, with method=GET, content type JSON and no body limit fixed by design", floor=27)
     ep = ctx.ep
     q0 = _q(ctx, "ep", inline=False)
     tgt = _field_names(ep, VMETA)
@@ -761,7 +764,7 @@ def _byname(x, roles=None):
 
 
 def r4_new_vs_stub(ctx):
-    R = ctx.rule("C19.R4", "ApiEndpoint::new and ::new_for_types build every field except `handler` from the same sources; the defaults are visible=true, deprecated=false, no summary/description/tags/body limit", floor=18)
+    R = ctx.rule("C19.R4", "ApiEndpoint::new and ::new_for_types build every field except `handler` from the same sources; the defaults are visible=true, deprecated=false, no summary/description/tags/body limit", floor=20)
     ds = ctx.ds
     q = _q(ctx, "ds", inline=False)
     fa = ctx.need_fn(ds, R, r"^api_description::ApiEndpoint::<Context>::new$")
@@ -1131,7 +1134,7 @@ def r7_versions(ctx):
         if c and not okc and detail.startswith("ordering"):
             detail = "comparison %s(%s, %s) does not relate until to earliest as `until < earliest => Err`" % (c["op"], cap(Q.show(q0.ev_op(fr, c["a"])), 60), cap(Q.show(q0.ev_op(fr, c["b"])), 60))
     ctx.check(R, "parse:literal-pair-refused-iff-until<earliest", okc, detail, pf)
-    # same direction as dropshot's from_until (C05.E3 decides that one exactly)
+    # (dropshot's own from_until refuses the same pairs, until < earliest: decided exactly by C05.E3)
     # ---- literals carry no pre-release / build metadata (semver_parts relies on it)
     ps = ctx.need_fn(ep, R, r"^metadata::parse_semver$")
     region = [ps] + ep.descendants(ps)
